@@ -53,6 +53,7 @@ func main() {
 			seed = v
 		}
 	}
+	tlc.SpecDir = verifDir + "/spec"
 	dir, err := tlc.Scratch(id)
 	if err != nil {
 		fmt.Fprintf(os.Stderr, "vcheck: %v\n", err)
